@@ -22,6 +22,7 @@ RULE = (
 ASSUMPTIONS = [
     "in expanding mode every used directory id is loadable from cache_odb (absent ids are file ids)",
     "hashlib and the hand-written listing parser are the trusted reference",
+    "the per-prefix traversal of ObjectDB.all() is reached by staging 20-24 manufactured contents whose md5 starts with '00' (needs fs.jobs >= 16, i.e. >= 4 cpus)",
 ]
 
 
@@ -48,6 +49,9 @@ def cases(draw):
         "read_only": draw(st.sampled_from([False, False, False, False, True])),
         "sep_cache": draw(st.booleans()),
         "drop_dir": draw(st.sampled_from([False, False, True])),
+        # >= 16 objects whose id starts with '00' switch ObjectDB.all() from one full listing to the
+        # per-prefix traversal (remote size is estimated from the '00' bucket)
+        "zeros": draw(st.sampled_from([0, 0, 0, 0, 20, 24])),
     }
 
 
@@ -70,6 +74,15 @@ def run_case(case, ctx):
         for i, t in enumerate(case["trees"]):
             src = os.path.join(d, f"t{i}")
             gen.materialise(t, src)
+            _, obj, _ = ops.stage_transfer(odb, src)
+            dir_ids.append(obj.hash_info.value)
+            if cache is not None:
+                ops.stage_transfer(cache, src)
+        if case.get("zeros"):
+            from .c12 import zeros
+
+            src = os.path.join(d, "tz")
+            gen.materialise({f"z{j}": "h:" + zeros()[j].hex() for j in range(case["zeros"])}, src)
             _, obj, _ = ops.stage_transfer(odb, src)
             dir_ids.append(obj.hash_info.value)
             if cache is not None:
@@ -180,6 +193,8 @@ def run_case(case, ctx):
         ]
         if case["read_only"]:
             classes.append("read-only")
+        if case.get("zeros"):
+            classes.append("per-prefix-traversal(>=16 '00' ids)")
         if cache is not None:
             classes.append("separate-cache_odb")
         if expected_removed and keep & set(before):
